@@ -24,20 +24,21 @@ import (
 // not make handling panic ----
 
 type hconn struct {
-	id      int
-	kind    string // tls | raw
-	cuts    []int  // absolute cut offsets of the first flight
-	cutCls  string
-	ua      string
-	raw     []byte
-	end     *sim.End
-	state   string // "", running, holding, done
-	hsErr   error
-	status  int
-	mitmHdr string
-	info    string
-	hasInfo bool
-	remote  string
+	id       int
+	kind     string // tls | raw
+	recSplit int    // >0: the ClientHello goes out in two records, cut after so many bytes of the message
+	cuts     []int  // absolute cut offsets of the first flight
+	cutCls   string
+	ua       string
+	raw      []byte
+	end      *sim.End
+	state    string // "", running, holding, done
+	hsErr    error
+	status   int
+	mitmHdr  string
+	info     string
+	hasInfo  bool
+	remote   string
 }
 
 type helloRig struct {
@@ -127,6 +128,15 @@ func runTLSHello(c *sim.Ctl) {
 				hc.raw = mutateHello(pristine, st)
 			}
 			hc.cuts, hc.cutCls = genCuts(st, len(pristine))
+			if hc.kind == "tls" && st.Draw(5) == 0 && len(pristine) > 60 {
+				// the record layer may carry one handshake message in several records (RFC 8446, 5.1):
+				// the same ClientHello, framed differently
+				hc.recSplit = []int{1, 3, 4, 41, 100}[st.Draw(5)]
+				if hc.recSplit >= len(pristine)-5 {
+					hc.recSplit = 4
+				}
+				hc.cutCls = "hello-in-two-records"
+			}
 		} else {
 			hc.cutCls = "whole"
 		}
@@ -190,6 +200,35 @@ func runTLSHello(c *sim.Ctl) {
 		r.cleanup = true
 		c.ReleaseAll()
 	}
+}
+
+// refragConn re-frames the first record a TLS client writes (its ClientHello) as two records,
+// the handshake message cut after `at` bytes.
+type refragConn struct {
+	net.Conn
+	at   int
+	done bool
+}
+
+func (f *refragConn) Write(p []byte) (int, error) {
+	if f.done || len(p) < 6 || p[0] != 22 {
+		return f.Conn.Write(p)
+	}
+	f.done = true
+	l := int(p[3])<<8 | int(p[4])
+	if 5+l > len(p) || f.at >= l {
+		return f.Conn.Write(p)
+	}
+	pay := p[5 : 5+l]
+	out := []byte{22, p[1], p[2], byte(f.at >> 8), byte(f.at)}
+	out = append(out, pay[:f.at]...)
+	out = append(out, 22, p[1], p[2], byte((l-f.at)>>8), byte(l-f.at))
+	out = append(out, pay[f.at:]...)
+	out = append(out, p[5+l:]...)
+	if _, err := f.Conn.Write(out); err != nil {
+		return 0, err
+	}
+	return len(p), nil
 }
 
 // captureHello runs a crypto/tls client against a sink and returns its first flight.
@@ -412,7 +451,12 @@ func (r *helloRig) connect(hc *hconn) {
 	hc.state = "running"
 	go func() {
 		defer func() { hc.state = "done" }()
-		tc := tls.Client(end, r.mkCfg(hc.id))
+		var conn net.Conn = end
+		if hc.recSplit > 0 {
+			c.Probe("hello-in-two-records")
+			conn = &refragConn{Conn: end, at: hc.recSplit}
+		}
+		tc := tls.Client(conn, r.mkCfg(hc.id))
 		if err := tc.Handshake(); err != nil {
 			hc.hsErr = err
 			end.Close()
